@@ -189,3 +189,16 @@ impl ForwarderClient {
         self.inner.is_ready()
     }
 }
+
+static COUNTER_VISITS: std::sync::Mutex<Vec<Key>> = std::sync::Mutex::new(Vec::new());
+
+/// Called by `State::flush` for every counter of its snapshot, in the order it walks them (the snapshot is a fresh
+/// `HashMap`, so the order differs from flush to flush and cannot be seen from outside).
+pub(crate) fn note_counter_visit(key: &Key) {
+    COUNTER_VISITS.lock().unwrap_or_else(|e| e.into_inner()).push(key.clone());
+}
+
+/// The keys noted since the last call, in order (process-wide: callers filter by their own keys).
+pub fn take_counter_visits() -> Vec<Key> {
+    std::mem::take(&mut *COUNTER_VISITS.lock().unwrap_or_else(|e| e.into_inner()))
+}
